@@ -630,23 +630,33 @@ func toInt64List(val interface{}) ([]int64, error) {
 func toUInt64(val interface{}) (uint64, error) {
 	switch x := val.(type) {
 	case int8:
-		return uint64(x), nil
+		if x >= 0 {
+			return uint64(x), nil
+		}
 	case uint8:
 		return uint64(x), nil
 	case int16:
-		return uint64(x), nil
+		if x >= 0 {
+			return uint64(x), nil
+		}
 	case uint16:
 		return uint64(x), nil
 	case int:
-		return uint64(x), nil
+		if x >= 0 {
+			return uint64(x), nil
+		}
 	case uint:
 		return uint64(x), nil
 	case int32:
-		return uint64(x), nil
+		if x >= 0 {
+			return uint64(x), nil
+		}
 	case uint32:
 		return uint64(x), nil
 	case int64:
-		return uint64(x), nil
+		if x >= 0 {
+			return uint64(x), nil
+		}
 	case uint64:
 		return x, nil
 	case string:
@@ -657,7 +667,9 @@ func toUInt64(val interface{}) (uint64, error) {
 	case float32:
 		return uint64(x), nil
 	case time.Time:
-		return uint64(x.Unix()), nil
+		if u := x.Unix(); u >= 0 {
+			return uint64(u), nil
+		}
 	default:
 		if rv := reflect.ValueOf(val); rv.CanUint() {
 			return rv.Uint(), nil
@@ -670,8 +682,11 @@ func toUInt64List(val interface{}) ([]uint64, error) {
 	switch x := val.(type) {
 	case []int:
 		l := make([]uint64, len(x))
+		var err error
 		for i := 0; i < len(x); i++ {
-			l[i] = uint64(x[i])
+			if l[i], err = toUInt64(x[i]); err != nil {
+				return nil, err
+			}
 		}
 		return l, nil
 	case []uint64:
